@@ -43,7 +43,7 @@ def check(tier, seed):
     if rep is None:
         ck.broken.append("c18-monitor crashed: " + (out + err)[-500:])
     ck.add_report("monitor_exhaustive", rep)
-    if tier == "thorough":
+    if tier == "thorough" and not os.environ.get("VERIF_NO_COQCHK"):
         rc, out, err = C.run("cd %s && coqchk -silent -o -R theories FG -R gen FG.gen -R properties FG.props FG.props.C18" % C.COQ, timeout=3000)
         ck.coverage["coqchk"] = (out + err)[-1500:]
         if rc != 0:
